@@ -562,6 +562,7 @@ func (ex *Exec) cborDecodeInto(b *SliceVal, target Value) Value {
 	// symbolic header bytes: the decoder is not encoded. Over-approximate its result:
 	// either an error, or an arbitrary header (version arbitrary; roots: none or one arbitrary CID).
 	ex.noteOnce("DAG-CBOR decode of symbolic header bytes is abstracted: error | arbitrary {version, 0..1 roots}")
+	ex.abstracted = true
 	switch ex.Choose(3, "cbor-decode") {
 	case 0:
 		return ex.newOpaqueError("cbor: decode error (abstract)", nil)
